@@ -296,7 +296,8 @@ var words = []string{"a", "b", "c", "apple", "Banana", "cherry", "x y", "Ã©", "æ
 	"abcdef", "seven 7", longWord, longMulti, "eight ch", "123456789", "ten chars.", "hello world", "twelve chars", "one two three"}
 var longWord = strings.Repeat("lorem ipsum dolor sit amet ", 9)
 var longMulti = strings.Repeat("æ—¥æœ¬èªžã®ãƒ†ã‚­ã‚¹ãƒˆ ", 12)
-var keyWords = []string{"a", "b", "c", "d", "e", "f", "g", "h", "i", "j", "k", "l", "name", "title", "n"}
+var keyWords = []string{"a", "b", "c", "d", "e", "f", "g", "h", "i", "j", "k", "l", "name", "title", "n",
+	"o", "p", "q", "r", "s", "t", "u", "v", "w", "x2", "y2", "z2"}
 
 func genScalar(r *Rng) *LV {
 	v := genScalar1(r)
@@ -471,6 +472,7 @@ func GenEnv(r *Rng, mapLo, mapHi int) *Env {
 	add("n", &LV{T: "int", I: int64(r.Range(-3, 12)), R: pick(r, []string{"", "int64", "ptr"})})
 	add("f", &LV{T: "float", F: float64(r.Range(-20, 80)) / 4})
 	add("v", genScalar(r))
+	add("cond", &LV{T: "str", S: pick(r, []string{"x", "x > 2", "x < 5", "x == 1", "x.n", "x contains 'a'", "x != nil"})})
 	add("arr", genArr(r, 1))
 	numsR := pick(r, []string{"", "typed", "ptrs"})
 	if noAddr && numsR == "ptrs" {
